@@ -1223,6 +1223,11 @@ def _stub_strlen(ex, st, args, ins):
     return out
 
 
+def _stub_strnlen(ex, st, args, ins):
+    n = args[1]; ln = _stub_strlen(ex, st, args[:1], ins)
+    return z3.If(z3.ULT(ln, n), ln, n)
+
+
 def _stub_cmp(kind):
     def stub(ex, st, args, ins):
         a, b = args[0], args[1]
@@ -1247,7 +1252,7 @@ def _stub_cmp(kind):
 
 
 DEFAULT_STUBS = {
-    'strlen': _stub_strlen, 'strcmp': _stub_cmp('strcmp'), 'strncmp': _stub_cmp('strncmp'), 'memcmp': _stub_cmp('memcmp'),
+    'strlen': _stub_strlen, 'strnlen': _stub_strnlen, 'strcmp': _stub_cmp('strcmp'), 'strncmp': _stub_cmp('strncmp'), 'memcmp': _stub_cmp('memcmp'),
     'memset': _stub_libc_mem('memset'), 'memcpy': _stub_libc_mem('memcpy'), 'memmove': _stub_libc_mem('memcpy'),
     'mju_message': _stub_message, 'mju_error': _stub_error, 'mju_error_v': _stub_error,
     'mju_warning': _stub_warning, 'snprintf': _stub_zero32, 'printf': _stub_zero32,
